@@ -19,9 +19,9 @@ import (
 
 func init() {
 	Registry["C08"] = Spec{
-		Fn:    c08,
-		Level: "exploration",
-		Rule: "the response scripts of C03 (incl. failing ones) are replayed under segmentations of the server byte stream: whole, one byte per read, two pieces at every offset (all offsets for streams <= 600 B, else 96 sampled), random split vectors, all 2^(n-1) splits of short (<= 12 B) responses, and with 0..3 virtual read-deadline expiries before each packet; every run is compared with the executable model (same oracle as C03) and a follow-up Ping must find the connection at a packet boundary. Proto level: library-encoded blocks and messages (plain and inside each kind of compressed frame) decoded through one-byte, half, data-with-EOF and random-chunk readers must give the values and consumption of the one-shot decode. Non-trivial = >=2 segments that split a field; distinct = (stream, segmentation)",
+		Fn:          c08,
+		Level:       "exploration",
+		Rule:        "the response scripts of C03 (incl. failing ones) are replayed under segmentations of the server byte stream: whole, one byte per read, two pieces at every offset (all offsets for streams <= 600 B, else 96 sampled), random split vectors, all 2^(n-1) splits of short (<= 12 B) responses, and with 0..3 virtual read-deadline expiries before each packet; every run is compared with the executable model (same oracle as C03) and a follow-up Ping must find the connection at a packet boundary. Proto level: library-encoded blocks and messages (plain and inside each kind of compressed frame) decoded through one-byte, half, data-with-EOF and random-chunk readers must give the values and consumption of the one-shot decode. Non-trivial = >=2 segments that split a field; distinct = (stream, segmentation)",
 		Assumptions: []string{"only read patterns a conforming io.Reader / net.Conn may produce"},
 		MinDistinct: 500,
 	}
